@@ -1,17 +1,27 @@
-(* ===== Scope2.v (model + semantics) ===== *)
-From Coq Require Import List Arith Bool Lia Permutation.
+(* ===== Scope.v : _simplify_scoped_terms on factor sets, and the component semantics (C03) =====
+   scoped factor = (factor expression, reduced); numeric-ness is a function of the expression. *)
+From Coq Require Import List Arith Bool Lia Permutation NArith.
 Import ListNotations.
 
 (* scoped factor = (id, reduced); numeric-ness is a global function of the id *)
-Definition sfac := (nat * bool)%type.
+Definition fid_t := list N.
+Fixpoint ideqb (a b : fid_t) : bool :=
+  match a, b with [], [] => true | x :: a', y :: b' => N.eqb x y && ideqb a' b' | _, _ => false end.
+Lemma ideqb_eq a b : ideqb a b = true <-> a = b.
+Proof.
+  revert b; induction a as [|x a IH]; destruct b as [|y b]; cbn; split; intro H; try discriminate; auto.
+  - apply andb_true_iff in H as [H1 H2]. apply N.eqb_eq in H1. apply IH in H2. congruence.
+  - inversion H; subst. rewrite N.eqb_refl. apply IH. reflexivity.
+Qed.
+Definition sfac := (fid_t * bool)%type.
 Definition fid (f : sfac) := fst f.
 Definition fred (f : sfac) := snd f.
 Definition sterm := list sfac.
 
-Definition sf_eqb (a b : sfac) := (fst a =? fst b) && Bool.eqb (snd a) (snd b).
+Definition sf_eqb (a b : sfac) := ideqb (fst a) (fst b) && Bool.eqb (snd a) (snd b).
 Lemma sf_eqb_spec a b : sf_eqb a b = true <-> a = b.
 Proof.
-  destruct a as [i r], b as [j s]; unfold sf_eqb; cbn. rewrite andb_true_iff, Nat.eqb_eq, eqb_true_iff.
+  destruct a as [i r], b as [j s]; unfold sf_eqb; cbn. rewrite andb_true_iff, ideqb_eq, eqb_true_iff.
   split; [intros [-> ->]; reflexivity | intros [= -> ->]; auto].
 Qed.
 Definition mem_sf x (t : sterm) := existsb (sf_eqb x) t.
@@ -50,7 +60,7 @@ Definition add_term (ts : list sterm) (t : sterm) := if mem_st t ts then ts else
 Definition remove_term (ts : list sterm) (t : sterm) := filter (fun x => negb (st_eqb x t)) ts.
 
 Fixpoint insert_by_len (t : sterm) (l : list sterm) :=
-  match l with [] => [t] | x :: r => if length x <=? length t then x :: insert_by_len t r else t :: l end.
+  match l with [] => [t] | x :: r => if length x <? length t then x :: insert_by_len t r else t :: l end.
 Definition sort_by_len (l : list sterm) := fold_right insert_by_len [] l.
 
 Definition sstep (rec : list sterm -> list sterm) (terms : list sterm) (st : sterm) :=
@@ -66,14 +76,14 @@ Fixpoint simplify (fuel : nat) (ts : list sterm) : list sterm :=
   end.
 
 Section Sem.
-Variable isnum : nat -> bool.
-Definition memn (i : nat) (c : list nat) := existsb (Nat.eqb i) c.
+Variable isnum : fid_t -> bool.
+Definition memn (i : fid_t) (c : list fid_t) := existsb (ideqb i) c.
 Lemma memn_spec i c : memn i c = true <-> In i c.
-Proof. unfold memn. rewrite existsb_exists. split; [intros (y & Hy & He); apply Nat.eqb_eq in He; subst; auto | intros H; exists i; split; [auto | apply Nat.eqb_refl]]. Qed.
+Proof. unfold memn. rewrite existsb_exists. split; [intros (y & Hy & He); apply ideqb_eq in He; subst; auto | intros H; exists i; split; [auto | apply ideqb_eq; reflexivity]]. Qed.
 Definition required (f : sfac) := fred f || isnum (fid f).
-Definition covers (t : sterm) (c : list nat) : bool :=
+Definition covers (t : sterm) (c : list fid_t) : bool :=
   forallb (fun f => implb (required f) (memn (fid f) c)) t && forallb (fun i => memn i (map fid t)) c.
-Definition count (c : list nat) (ts : list sterm) := length (filter (fun t => covers t c) ts).
+Definition count (c : list fid_t) (ts : list sterm) := length (filter (fun t => covers t c) ts).
 Definition nred1 (t : sterm) := length (filter fred t).
 Definition nred (ts : list sterm) := fold_right (fun t n => nred1 t + n) 0 ts.
 Definition wf_term (t : sterm) := NoDup (map fid t).
